@@ -1,11 +1,20 @@
 ------------------------------- MODULE EqHash -------------------------------
 (***************************************************************************)
 (* C16 - equality, hashing and type predicates are mutually coherent.      *)
-(* (a) algebraic laws evaluated over relation matrices logged from slip's  *)
-(*     own predicates on a generated universe; each law returns the tuples *)
-(*     that violate it;                                                    *)
-(* (b) a hash table as a finite map modulo slip's own eql: `tab` is a      *)
-(*     sequence of [k, v] with pairwise non-equivalent keys.               *)
+(*                                                                         *)
+(* (a) Laws over relations.  The first event of a trace carries, for a     *)
+(*     generated universe of objects, the matrices of slip's own eq, eql,  *)
+(*     equal, equalp, the sxhash codes, type-of, typep against a list of   *)
+(*     type symbols, subtypep between those symbols and the outcome of     *)
+(*     coerce.  The laws of the statement are first-order formulas over    *)
+(*     these finite relations; each operator below returns the tuples that *)
+(*     violate its law, so a rejection names them.                         *)
+(* (b) A hash table is a finite map modulo its test: after any sequence of *)
+(*     stores, removals and clears a lookup returns the value last stored  *)
+(*     under an equivalent key (also when that value is nil), remhash      *)
+(*     tells whether there was an entry, the count is the number of        *)
+(*     distinct keys and maphash visits exactly the entries.  "Equivalent" *)
+(*     is slip's own predicate of the table's test, from the matrices.     *)
 (***************************************************************************)
 EXTENDS Integers, Sequences, TLC, FiniteSets, Json
 CONSTANT TraceFile
@@ -13,41 +22,83 @@ E == ndJsonDeserialize(TraceFile)
 R == E[1]
 N == Len(R.univ)
 Idx == 1..N
+NT == Len(R.types)
+TIdx == 1..NT
+Preds == {"eq", "eql", "equal", "equalp"}
 Rel(name) == IF name = "eq" THEN R.eq ELSE IF name = "eql" THEN R.eql ELSE IF name = "equal" THEN R.equal ELSE R.equalp
 Refl(m) == {i \in Idx : ~m[i][i]}
 Symm(m) == {<<i, j>> \in Idx \X Idx : m[i][j] /\ ~m[j][i]}
 Trans(m) == {<<i, j, k>> \in Idx \X Idx \X Idx : m[i][j] /\ m[j][k] /\ ~m[i][k]}
 Implies(a, b) == {<<i, j>> \in Idx \X Idx : a[i][j] /\ ~b[i][j]}
-HashOK == {<<i, j>> \in Idx \X Idx : R.equal[i][j] /\ R.sxhash[i] # R.sxhash[j]}
-Laws == [reflexive |-> [p \in {"eq", "eql", "equal", "equalp"} |-> Refl(Rel(p))],
-         symmetric |-> [p \in {"eq", "eql", "equal", "equalp"} |-> Symm(Rel(p))],
-         transitive |-> [p \in {"eq", "eql", "equal", "equalp"} |-> Trans(Rel(p))],
-         eq_eql |-> Implies(R.eq, R.eql), eql_equal |-> Implies(R.eql, R.equal), equal_equalp |-> Implies(R.equal, R.equalp),
-         hash |-> HashOK]
-\* hash table as a finite map modulo slip's own eql (indices are 0-based in the log)
-Same(a, b) == R.eql[a + 1][b + 1]
+HashBad == {<<i, j>> \in Idx \X Idx : R.equal[i][j] /\ R.sxhash[i] # R.sxhash[j]}
+\* types: R.typeof[i] = index into R.types of (type-of x_i), 0 when it is not one of the listed symbols
+TypeOfBad == {i \in Idx : R.typeof[i] > 0 /\ ~R.typep[i][R.typeof[i]]}
+\* subtypep answers [v, sure]; a definite yes must agree with typep on the whole universe
+SubDefYes(a, b) == R.subtypep[a][b].v /\ R.subtypep[a][b].sure
+SubtypeTypepBad == {<<i, a, b>> \in Idx \X TIdx \X TIdx : R.typep[i][a] /\ SubDefYes(a, b) /\ ~R.typep[i][b]}
+\* the property quantifies subtypep over "every type symbol known to the class registry": R.known[a] is what find-class
+\* (or the designator t) answers for the a-th type name.  typep is judged for every name in the list.
+Known == {a \in TIdx : R.known[a]}
+SubReflBad == {a \in Known : ~SubDefYes(a, a)}
+SubTransBad == {<<a, b, c>> \in Known \X Known \X Known : SubDefYes(a, b) /\ SubDefYes(b, c) /\ ~SubDefYes(a, c)}
+\* a definite no must not be contradicted by ... nothing finite can show that; but an object of a but not of b refutes a definite yes (above)
+\* coerce: R.coerce = sequence of [i, t, ok, isT]: coercing x_i to type t succeeded and the result is typep t
+CoerceBad == {k \in 1..Len(R.coerce) : R.coerce[k].ok /\ ~R.coerce[k].isT}
+\* slip documents make-hash-table's :test as ignored ("eql always used", and every table prints as #<hash-table eql ..>):
+\* the test of every table is eql, whatever :test says.  The specification follows that documented reading.
+\* a table must treat as one key what its test declares equivalent.  R.ident[i][j]: a key stored as x_i is found again
+\* as x_j (probed by the harness on fresh tables); every pair the test relates must be related by it
+TableBad(p) == {<<i, j>> \in Idx \X Idx : Rel(p)[i][j] /\ ~R.ident[i][j]}
+LawList == <<[law |-> "predicates are total", n |-> Len(R.errors)],
+             [law |-> "table key identity covers eq", n |-> Cardinality(TableBad("eq"))],
+             [law |-> "table key identity covers eql", n |-> Cardinality(TableBad("eql"))],
+             [law |-> "reflexive", n |-> Cardinality(UNION {Refl(Rel(p)) : p \in Preds})],
+             [law |-> "symmetric", n |-> Cardinality(UNION {Symm(Rel(p)) : p \in Preds})],
+             [law |-> "transitive eq", n |-> Cardinality(Trans(R.eq))], [law |-> "transitive eql", n |-> Cardinality(Trans(R.eql))],
+             [law |-> "transitive equal", n |-> Cardinality(Trans(R.equal))], [law |-> "transitive equalp", n |-> Cardinality(Trans(R.equalp))],
+             [law |-> "eq => eql => equal => equalp", n |-> Cardinality(Implies(R.eq, R.eql) \cup Implies(R.eql, R.equal) \cup Implies(R.equal, R.equalp))],
+             [law |-> "equal => same sxhash", n |-> Cardinality(HashBad)],
+             [law |-> "typep of own type-of", n |-> Cardinality(TypeOfBad)],
+             [law |-> "typep closed under subtypep", n |-> Cardinality(SubtypeTypepBad)],
+             [law |-> "subtypep reflexive", n |-> Cardinality(SubReflBad)],
+             [law |-> "subtypep transitive", n |-> Cardinality(SubTransBad)],
+             [law |-> "coerce returns the requested type", n |-> Cardinality(CoerceBad)]>>
+\* witnesses (object / type indices, 1-based) of every violated law, for the report
+Witness == [total |-> R.errors, tableEq |-> TableBad("eq"), tableEql |-> TableBad("eql"),
+            symmetric |-> UNION {Symm(Rel(p)) : p \in Preds},
+            transitive |-> Trans(R.eql) \cup Trans(R.equal) \cup Trans(R.equalp),
+            chain |-> Implies(R.eq, R.eql) \cup Implies(R.eql, R.equal) \cup Implies(R.equal, R.equalp),
+            hash |-> HashBad, typeof |-> TypeOfBad, subtypeTypep |-> SubtypeTypepBad, subRefl |-> SubReflBad,
+            subTrans |-> SubTransBad, coerce |-> CoerceBad, reflexive |-> UNION {Refl(Rel(p)) : p \in Preds}]
+
+\* ---- the hash table as a finite map modulo the table's test (key indices are 0-based in the log) --------
+\* The mechanics of the table (store, replace, remove, clear, count, nil values, maphash) are judged modulo the key
+\* identity the table actually implements (R.ident); that this identity is the one of the table's test is the
+\* separate law above, so that one incoherence does not hide every other defect.
+Same(test, a, b) == R.ident[a + 1][b + 1]
 VARIABLES l, tab, bad, skip
 Init == l = 2 /\ tab = <<>> /\ bad = <<>> /\ skip = FALSE     \* tab: sequence of [k, v] with pairwise non-equivalent keys
-Find(t, k) == SelectSeq(t, LAMBDA p : Same(p.k, k))
-Without(t, k) == SelectSeq(t, LAMBDA p : ~Same(p.k, k))
+Find(t, test, k) == SelectSeq(t, LAMBDA p : Same(test, p.k, k))
+Without(t, test, k) == SelectSeq(t, LAMBDA p : ~Same(test, p.k, k))
+\* values: small integers; -1 stands for nil (a stored nil is an entry like any other)
 Next == /\ l <= Len(E) /\ l' = l + 1
         /\ LET e == E[l]
                t0 == IF e.i = 1 THEN <<>> ELSE tab
                sk == IF e.i = 1 THEN FALSE ELSE skip
-               t1 == CASE e.ev = "put" -> Append(Without(t0, e.k), [k |-> e.k, v |-> e.v])
-                       [] e.ev = "rem" -> Without(t0, e.k)
+               hit == Find(t0, e.test, e.k)
+               t1 == CASE e.ev = "put" -> Append(Without(t0, e.test, e.k), [k |-> e.k, v |-> e.v])
+                       [] e.ev = "rem" -> Without(t0, e.test, e.k)
+                       [] e.ev = "clr" -> <<>>
                        [] OTHER -> t0
-               expGet == IF Find(t0, e.k) = <<>> THEN -1 ELSE Find(t0, e.k)[1].v
-               ok == e.ok /\ e.count = Len(t1) /\ (e.ev # "get" \/ e.v = expGet)
+               ok == /\ e.ok /\ e.count = Len(t1)
+                     /\ (e.ev = "get" => (e.present = (hit # <<>>) /\ (hit # <<>> => e.v = hit[1].v)))
+                     /\ (e.ev = "rem" => e.present = (hit # <<>>))
+                     \* maphash: exactly one visit per entry, with the stored value, for keys equivalent to the stored ones
+                     /\ (e.ev = "map" => /\ Len(e.seen) = Len(t0)
+                                         /\ \A p \in {t0[j] : j \in 1..Len(t0)} :
+                                              \E j \in 1..Len(e.seen) : Same(e.test, e.seen[j].k, p.k) /\ e.seen[j].v = p.v)
            IN /\ tab' = t1
               /\ skip' = (sk \/ ~ok)
-              /\ bad' = IF sk \/ ok THEN bad ELSE Append(bad, [l |-> l, t |-> e.t, ev |-> e.ev, k |-> R.univ[e.k + 1]])
-LawList == <<[law |-> "transitive", rel |-> "eql", n |-> Cardinality(Trans(R.eql))], [law |-> "transitive", rel |-> "equal", n |-> Cardinality(Trans(R.equal))],
-             [law |-> "transitive", rel |-> "equalp", n |-> Cardinality(Trans(R.equalp))], [law |-> "transitive", rel |-> "eq", n |-> Cardinality(Trans(R.eq))],
-             [law |-> "symmetric", rel |-> "all", n |-> Cardinality(Symm(R.eq) \cup Symm(R.eql) \cup Symm(R.equal) \cup Symm(R.equalp))],
-             [law |-> "reflexive", rel |-> "all", n |-> Cardinality(Refl(R.eq) \cup Refl(R.eql) \cup Refl(R.equal) \cup Refl(R.equalp))],
-             [law |-> "chain", rel |-> "eq<=eql<=equal<=equalp", n |-> Cardinality(Implies(R.eq, R.eql) \cup Implies(R.eql, R.equal) \cup Implies(R.equal, R.equalp))],
-             [law |-> "sxhash", rel |-> "equal", n |-> Cardinality(HashOK)]>>
-Done == (l = Len(E) + 1) => PrintT("RESULT" \o ToJson([bad |-> bad, checked |-> Len(E) - 1, laws |-> LawList,
-             transitive |-> [i \in 1..Cardinality(Trans(R.eql)) |-> 0]]))
-====
+              /\ bad' = IF sk \/ ok THEN bad ELSE Append(bad, [l |-> l, t |-> e.t, i |-> e.i, ev |-> e.ev, k |-> e.k, test |-> e.test])
+Done == (l = Len(E) + 1) => PrintT("RESULT" \o ToJson([bad |-> bad, checked |-> Len(E) - 1, laws |-> LawList, witness |-> Witness]))
+=============================================================================
